@@ -605,7 +605,7 @@ Proof.
   unfold pads_ok in Hpads. rewrite forallb_forall in Hpads.
   assert (Hpf : forall tp, In tp (plain_records (i_cfg x) (i_writes x) (i_close x)) -> pad_fine (i_cfg x) (snd tp)).
   { intros tp Hin. specialize (Hpads tp Hin). unfold pad_fine.
-    destruct (c_kind (i_cfg x) =? 1); [|reflexivity]. cbn [negb orb andb] in *. rewrite Hpads. reflexivity. }
+    destruct (c_kind (i_cfg x) =? 1); [|reflexivity]. cbn [negb orb andb] in *. apply negb_false_iff. exact Hpads. }
   unfold receive, orig_wire, protect, S_of in *. unfold plain_records in *.
   set (ws := flat_map (write_recs (i_cfg x)) (i_writes x)) in *.
   apply Forall_app in Hok. destruct Hok as [Hws _].
@@ -703,3 +703,18 @@ Lemma examples_lemma :
   run_C42 ex_forged_close = VL [VB [104]; VZ 110; VZ 1] /\ kf_C42 ex_forged_close = 0 /\
   run_C42 ex_clean = VL [VB [104; 101; 108; 108; 111; 119; 111; 114; 108; 100]; VZ 1; VZ 5].
 Proof. vm_compute. repeat split. Qed.
+
+(* a peer with SSLv3-style padding (arbitrary content): rejected by a TLS 1.0 receiver, accepted by SSLv3 *)
+Definition ex_ssl3_pad_tls : val :=
+  VL [VL [VZ 47; VZ 769; VZ 1; VZ 20; VZ 16; VZ 0; VZ 0; VZ 1; VZ 0]; hello_world; VZ 1; VL []; VZ (-1); VZ 0; VZ 64].
+Definition ex_ssl3_pad_ssl3 : val :=
+  VL [VL [VZ 47; VZ 768; VZ 1; VZ 20; VZ 16; VZ 0; VZ 0; VZ 1; VZ 0]; hello_world; VZ 1; VL []; VZ (-1); VZ 0; VZ 64].
+Lemma wf_examples_lemma :
+  (exists x, dec_C42 ex_flip_tag = Some x /\ wf_C42 x = true) /\
+  (exists x, dec_C42 ex_replay = Some x /\ wf_C42 x = true) /\
+  (exists x, dec_C42 ex_forged_close = Some x /\ wf_C42 x = true) /\
+  (exists x, dec_C42 ex_clean = Some x /\ wf_C42 x = true /\ pads_ok x = true) /\
+  (exists x, dec_C42 ex_ssl3_pad_tls = Some x /\ wf_C42 x = true /\ pads_ok x = false /\
+             run_C42 ex_ssl3_pad_tls = VL [VB []; VZ 120; VZ 0]) /\
+  (exists x, dec_C42 ex_ssl3_pad_ssl3 = Some x /\ wf_C42 x = true /\ pads_ok x = true).
+Proof. repeat split; eexists; (split; [vm_compute; reflexivity|]); vm_compute; repeat split. Qed.
